@@ -17,6 +17,7 @@ type TxGen struct {
 	Counts  map[string]int   // message kinds generated
 	Invalid int
 	Fee     uint64
+	Stable  int // keys 0..Stable-1 never unstake or pause (keeps a committee alive)
 	memoCtr int
 }
 
@@ -71,7 +72,12 @@ func (g *TxGen) Next(sm *fsm.StateMachine) ([]byte, string) {
 		if !exists {
 			amt := g.R.Pick(1, 1000, 1000, 5000, 100000)
 			out := BLSKey(g.R.Intn(g.NKeys))
-			return mk("stake")(fsm.NewStakeTx(k.Priv, k.Pub, crypto.NewAddress(out.Addr), "tcp://n", []uint64{1}, amt, 1, 1, g.Fee, h, g.R.Chance(25), g.R.Chance(40), g.memo()))
+			dlg := g.R.Chance(25)
+			netAddr := "tcp://n"
+			if dlg && g.R.Chance(85) {
+				netAddr = "" // delegates carry no net address (CheckNetAddress)
+			}
+			return mk("stake")(fsm.NewStakeTx(k.Priv, k.Pub, crypto.NewAddress(out.Addr), netAddr, []uint64{1}, amt, 1, 1, g.Fee, h, dlg, g.R.Chance(40), g.memo()))
 		}
 		fallthrough
 	case kind < 50:
@@ -80,12 +86,12 @@ func (g *TxGen) Next(sm *fsm.StateMachine) ([]byte, string) {
 		}
 		fallthrough
 	case kind < 57:
-		if exists {
+		if exists && i >= g.Stable {
 			return mk("unstake")(fsm.NewUnstakeTx(k.Priv, addr, 1, 1, g.Fee, h, g.memo()))
 		}
 		fallthrough
 	case kind < 64:
-		if exists && !val.Delegate {
+		if exists && !val.Delegate && i >= g.Stable {
 			if val.MaxPausedHeight == 0 {
 				return mk("pause")(fsm.NewPauseTx(k.Priv, addr, 1, 1, g.Fee, h, g.memo()))
 			}
@@ -93,7 +99,7 @@ func (g *TxGen) Next(sm *fsm.StateMachine) ([]byte, string) {
 		}
 		fallthrough
 	case kind < 70:
-		return mk("subsidy")(fsm.NewSubsidyTx(k.Priv, g.amount(bal), g.R.Pick(1, 1, 2), nil, 1, 1, g.Fee, h, g.memo()))
+		return mk("subsidy")(fsm.NewSubsidyTx(k.Priv, g.amount(bal), g.R.Pick(1, 1, 2, 2, 1+fsm.EscrowPoolAddend, 1+fsm.HoldingPoolAddend, 2+fsm.LiquidityPoolAddend, fsm.MaxChainId+1), nil, 1, 1, g.Fee, h, g.memo()))
 	case kind < 76:
 		return mk("dao-transfer")(fsm.NewDAOTransferTx(k.Priv, g.R.Pick(1, 100, 5000, 1<<40), h, h+3, 1, 1, g.Fee, h, g.R.Chance(50), g.memo()))
 	case kind < 82:
@@ -121,11 +127,13 @@ func (g *TxGen) Next(sm *fsm.StateMachine) ([]byte, string) {
 			vals       []uint64
 		}{
 			{fsm.ParamSpaceFee, fsm.ParamSendFee, []uint64{10000, 20000, 1}},
-			{fsm.ParamSpaceVal, fsm.ParamUnstakingBlocks, []uint64{1, 2, 5}},
+			{fsm.ParamSpaceVal, fsm.ParamUnstakingBlocks, []uint64{1, 2, 5, 0}},                 // 0 is rejected by Check()
+			{fsm.ParamSpaceVal, fsm.ParamMaxSlashPerCommittee, []uint64{15, 60, 100, 0, 101}}, // 0 and 101 are rejected
+			{fsm.ParamSpaceVal, fsm.ParamMaxPauseBlocks, []uint64{3, 5, 0}},
 			{fsm.ParamSpaceVal, fsm.ParamMaxCommitteeSize, []uint64{2, 3, 100}},
 			{fsm.ParamSpaceVal, fsm.ParamMinimumStakeForValidators, []uint64{0, 500, 2000}},
 			{fsm.ParamSpaceGov, fsm.ParamDAORewardPercentage, []uint64{0, 5, 50}},
-		}[g.R.Intn(5)]
+		}[g.R.Intn(7)]
 		return mk("change-param")(fsm.NewChangeParamTxUint64(k.Priv, p.space, p.key, p.vals[g.R.Intn(len(p.vals))], h, h+5, 1, 1, g.Fee, h, g.memo()))
 	default:
 		// the invalid stream: signed by the wrong key, wrong chain, stale height, someone else's validator
